@@ -3,7 +3,8 @@
 // canonical dump of the tree it built and the answers of XmlElement::find to the listed queries.
 //
 // case   : "<kind> <hex bytes> <expected tree dump | -> <queries | ->"
-//          query = <1|A>:<start address>:<hex path>[:<hex attr name>:<hex attr value>]   (';'-separated)
+//          query = <1|A>:<start address>:<hex path>[:<hex atag | ~>:<hex aval | ~>[:<hex delim>]]   (';'-separated)
+//                  1 = find(what, atag, aval, delim), A = find(what, eset, atag, aval, delim); ~ = null pointer
 //          address = r | r.<i>.<j>...   (positions in document order, ordchildren_)
 // result : "T <dump> Q <answer>;<answer>..."   |  "E <hex of what()>"  |  "SKIP xi:include"
 // dump   : el = '<' hex(tag) ['?' hex(decl)] ['=' hex(value)] {'@' hex(key) ':' hex(val)} {el} '>'
@@ -71,7 +72,7 @@ static const XmlElement *locate(const XmlElement *root, const std::string& addr)
 static std::string query(const XmlElement *root, const std::string& q)
 {
 	const std::vector<std::string> f(split(q, ':'));
-	if (f.size() != 3 && f.size() != 5)
+	if (f.size() != 3 && f.size() != 5 && f.size() != 6)
 		return "badquery";
 	const XmlElement *start(locate(root, f[1]));
 	if (!start)
@@ -79,14 +80,26 @@ static std::string query(const XmlElement *root, const std::string& q)
 	const std::string path(unhex(f[2]));
 	std::string atag, aval;
 	const std::string *pt(nullptr), *pv(nullptr);
-	if (f.size() == 5) { atag = unhex(f[3]); aval = unhex(f[4]); pt = &atag; pv = &aval; }
+	char delim('/');
+	if (f.size() >= 5)
+	{
+		if (f[3] != "~") { atag = unhex(f[3]); pt = &atag; }
+		if (f[4] != "~") { aval = unhex(f[4]); pv = &aval; }
+	}
+	if (f.size() == 6)
+	{
+		const std::string dl(unhex(f[5]));
+		if (dl.size() != 1)
+			return "badquery";
+		delim = dl[0];
+	}
 	if (f[0] == "1")
 	{
-		const XmlElement *r(start->find(path, pt, pv));
+		const XmlElement *r(start->find(path, pt, pv, delim));
 		return r ? address(r) : "none";
 	}
 	XmlElement::XmlSet eset;
-	const int cnt(start->find(path, eset, pt, pv));
+	const int cnt(start->find(path, eset, pt, pv, delim));
 	std::string out;
 	for (XmlElement::XmlSet::const_iterator itr(eset.begin()); itr != eset.end(); ++itr)
 	{
